@@ -47,7 +47,7 @@ def gen(seed: int, tier: str) -> dict[str, Any]:
             r = rng.random()
             if r < 0.6:
                 op["b"] = {"lat": rng.choice([0.0, 0.002, 0.05]), "out": "ok", "con": "after",
-                           "con_d": rng.choice([0.0, 0.003, 0.5])}
+                           "con_d": rng.choice([0.0, 0.003, 0.003, 0.5, 2.9, 3.5])}
             elif r < 0.7:
                 op["b"] = {"lat": 0.002, "out": "comm_error"}
             elif r < 0.8:
@@ -192,6 +192,20 @@ def oracle(R, plan, stub, info, seen_cb, seen_dev, pid_of):
         if rate and h2["t"] - h1["t"] < 1.0 / rate - 1e-9:
             R.violate("C33.rate-limit", f"spacing<1/{rate}",
                       f"telegrams {p1},{p2} handed off {h2['t'] - h1['t']:.6f}s apart with rate_limit {rate}")
+    # one at a time: a telegram is handed over only when the previous send is finished - confirmed by an L_Data.con
+    # handled after its hand-off, given up after the 3 s confirmation timeout, or failed in the hand-off itself
+    cons = [(n, t) for (n, t, it, kind, actor, detail) in R.events if kind == "cemi_in" and actor == "con"]
+    for (p1, h1), (p2, h2) in zip(ho, ho[1:]):
+        if h1["ret_n"] is None:
+            continue
+        fin = h1["ret_t"]
+        if h1["b"].get("out", "ok") == "ok":
+            first = next((t for (n, t) in cons if n > h1["n"]), None)
+            fin = max(h1["ret_t"], min(first if first is not None else float("inf"), h1["ret_t"] + 3.0))
+        if h2["t"] < fin - 1e-6:
+            R.violate("C33.one-at-a-time", "next-handoff-before-previous-send-finished",
+                      f"telegram {p2} handed off at {h2['t']:.6f}; telegram {p1} (hand-off returned {h1['ret_t']:.6f}) is "
+                      f"confirmed / given up only at {fin:.6f}")
     for (i, k) in puts:
         if k.startswith("internal") and i in ho_ids:
             R.violate("C33.internal", "internal-telegram-reached-interface", f"telegram {i}")
